@@ -1,9 +1,17 @@
-"""Representer / serializer / constructor agreement rules (C02, C14, C16, C17)."""
+"""Representer / serializer / constructor agreement rules (C02, C14, C16, C17).
+
+Variables are found by role (parameter position, "the local that receives self.construct_mapping(node)", "the loop target
+over node.value"), conditions are CFG guard edges, values are followed through local copies (rules_order.Flow /
+value_sources).  No rule compares the text of a local name or a frozen source fragment.
+"""
 import ast
 
 from . import astutil as A
 from . import rules_registry as RR
 from .cfg import CFG, own_exprs
+from .rules_order import (Flow, _nodes_with, _self_call, _test_edges, call_arg, is_every_source, local_defs, name_node,
+                          none_test_edges, on_cycle, only_raises, param_env, pmatch, raise_class_ok, reach_under, same,
+                          self_attr, value_sources)
 from .srcmodel import AnalysisError, ClassInfo, FuncInfo, norm, walk_function
 
 CORE = 'tag:yaml.org,2002:'
@@ -14,32 +22,43 @@ CHILD_KIND = {'construct_scalar': 'scalar', 'construct_sequence': 'sequence', 'c
               'construct_pairs': 'mapping', 'flatten_mapping': 'mapping'}
 
 
-def representer_outputs(repo, f, cls, _seen=None):
-    """[(tag text or const, kind, call node)] a representer function can emit (following self.represent_* helpers)."""
+def representer_outputs(repo, f, cls, _stack=(), bind=None):
+    """[(tag expr, kind, call node, owner function, parameter bindings of the owner)] a representer function can emit,
+    following self.represent_* helpers; the bindings map a helper's parameter to (argument expr, caller, caller's bindings)
+    so that a tag handed down as an argument is resolved at the call site."""
     out = []
-    _seen = _seen or set()
-    if f in _seen:
+    if f in _stack:
         return out
-    _seen.add(f)
+    bind = bind or {}
     for c in A.func_calls(f.node):
         if isinstance(c.func, ast.Attribute) and norm(c.func.value) == f.params[0]:
-            if c.func.attr in KIND_OF_CALL and c.args:
-                t = c.args[0]
-                out.append((t, KIND_OF_CALL[c.func.attr], c, f))
+            if c.func.attr in KIND_OF_CALL:
+                t = call_arg(c, 0, 'tag')
+                if t is not None:
+                    out.append((t, KIND_OF_CALL[c.func.attr], c, f, bind))
             elif c.func.attr.startswith('represent_') and c.func.attr not in ('represent_data',):
                 found = repo.lookup(cls, c.func.attr)
                 if found and isinstance(found[1], FuncInfo):
-                    out.extend(representer_outputs(repo, found[1], cls, _seen))
+                    g = found[1]
+                    b = {}
+                    for i, a in enumerate(c.args):
+                        if not isinstance(a, ast.Starred) and i + 1 < len(g.params):
+                            b[g.params[i + 1]] = (a, f, bind)
+                    for k in c.keywords:
+                        if k.arg:
+                            b[k.arg] = (k.value, f, bind)
+                    out.extend(representer_outputs(repo, g, cls, _stack + (f,), b))
     return out
 
 
-def tag_prefix_of(f, t):
-    """constant tag, or constant prefix of `CONST + name` / a local bound to such a constant."""
+def tag_prefix_of(f, t, bind=None):
+    """constant tag, or constant prefix of `CONST + name` / a local bound to such a constant / a parameter bound to one at
+    the call site."""
     s = A.const_str(t)
     if s is not None:
         return s, True
     if isinstance(t, ast.BinOp) and isinstance(t.op, (ast.Add, ast.Mod)):
-        l = tag_prefix_of(f, t.left)
+        l = tag_prefix_of(f, t.left, bind)
         if l is not None:
             out = []
             for (s, exact) in (l if isinstance(l, list) else [l]):
@@ -47,14 +66,43 @@ def tag_prefix_of(f, t):
                     s = s.split('%')[0]
                 out.append((s, False))
             return out if len(out) > 1 else out[0]
+    if isinstance(t, ast.JoinedStr) and t.values and isinstance(t.values[0], ast.Constant) and isinstance(t.values[0].value, str):
+        return t.values[0].value, False
     if isinstance(t, ast.Name):
         vals = [n.value for n in walk_function(f.node) if isinstance(n, ast.Assign)
                 and any(isinstance(x, ast.Name) and x.id == t.id for x in n.targets)]
-        res = [tag_prefix_of(f, v) for v in vals]
-        res = [r for r in res if r is not None]
-        if res and len(res) == len(vals):
+        if not vals and bind and t.id in bind:
+            expr, caller, cbind = bind[t.id]
+            return tag_prefix_of(caller, expr, cbind)
+        res = []
+        for v in vals:
+            r = tag_prefix_of(f, v, bind)
+            if r is None:
+                return None
+            res.extend(r if isinstance(r, list) else [r])
+        if res:
             return res
     return None
+
+
+def _tag_from_outside(f, t, bind):
+    """the tag is not decided inside the representer tables: it is the yaml_tag attribute of the represented object / its
+    class, or a parameter that no table function binds (YAMLObject.to_yaml hands it in)."""
+    srcs = value_sources(f.node, t, f.params)
+    if not srcs:
+        return False
+    for s in srcs:
+        if isinstance(s, ast.Attribute) and s.attr == 'yaml_tag':
+            continue
+        if isinstance(s, ast.Name) and s.id in f.params[1:]:
+            if bind and s.id in bind:
+                expr, caller, cbind = bind[s.id]
+                if _tag_from_outside(caller, expr, cbind):
+                    continue
+                return False
+            continue
+        return False
+    return True
 
 
 def constructor_kinds(repo, f, cls, _seen=None):
@@ -73,10 +121,11 @@ def constructor_kinds(repo, f, cls, _seen=None):
                 if found and isinstance(found[1], FuncInfo):
                     kinds |= constructor_kinds(repo, found[1], cls, _seen)
         if norm(c.func) == 'isinstance' and len(c.args) == 2:
-            k = norm(c.args[1])
-            for nm, kd in (('ScalarNode', 'scalar'), ('SequenceNode', 'sequence'), ('MappingNode', 'mapping')):
-                if nm in k:
-                    kinds.add(kd)
+            for x in ast.walk(c.args[1]):
+                if isinstance(x, ast.Name):
+                    for nm, kd in (('ScalarNode', 'scalar'), ('SequenceNode', 'sequence'), ('MappingNode', 'mapping')):
+                        if x.id == nm:
+                            kinds.add(kd)
     return kinds
 
 
@@ -98,10 +147,10 @@ def r_tag_vocab(ctx, repo, dumpers, loaders, rule_id, exact_types=None):
             else:
                 rule.ok('%s:%d' % (D.module.rel, D.node.lineno), '%s represents exactly the %d safe types' % (D.name, len(keys)))
         for tkey, f in list(reps.items()) + list(multi.items()):
-            for t, kind, call, owner in representer_outputs(repo, f, D):
-                tp = tag_prefix_of(owner, t)
+            for t, kind, call, owner, bind in representer_outputs(repo, f, D):
+                tp = tag_prefix_of(owner, t, bind)
                 if tp is None:
-                    if owner.name in ('represent_yaml_object',):
+                    if _tag_from_outside(owner, t, bind):
                         continue      # tag supplied by the user class (YAMLObject)
                     raise AnalysisError('%s: tag expression %s not understood' % (owner.loc(call), norm(t)))
                 for (tag, exact) in (tp if isinstance(tp, list) else [tp]):
@@ -116,8 +165,6 @@ def r_tag_vocab(ctx, repo, dumpers, loaders, rule_id, exact_types=None):
                             for pfx, g in mtab.items():
                                 if pfx is not None and tag.startswith(pfx):
                                     cf = g
-                            if cf is None and tag in ctab:
-                                cf = None
                         if cf is None and exact:
                             for pfx, g in mtab.items():
                                 if pfx is not None and tag.startswith(pfx):
@@ -140,6 +187,87 @@ def r_tag_vocab(ctx, repo, dumpers, loaders, rule_id, exact_types=None):
     return rule
 
 
+RESOLUTIONS = (('self.resolve(ScalarNode, __v, (True, False))', 'plain'), ('self.resolve(ScalarNode, __v, (False, True))', 'quoted'))
+
+
+def _scalar_resolutions(f, env):
+    """[(call, kind, value expr)] of the self.resolve(ScalarNode, <value>, <flags>) calls of a serializer function."""
+    out = []
+    for c in A.func_calls(f.node):
+        b = pmatch('self.resolve(ScalarNode, __v, __flags)', c, env)
+        if b is None:
+            continue
+        kind = None
+        for src, k in RESOLUTIONS:
+            if pmatch(src, c, env) is not None:
+                kind = k
+        out.append((c, kind, b['__v'], b['__flags']))
+    return out
+
+
+def _flag_kind(flow, at, e, env):
+    """which resolution an implicit-flag expression evaluated at CFG node `at` stands for: 'plain' / 'quoted' when it is
+    true exactly if the node's tag equals self.resolve(ScalarNode, node.value, (True, False) / (False, True)), else None."""
+    cfg = flow.cfg
+
+    def is_tag(x, n):
+        return flow.every(n, x, lambda s, m: pmatch('_N_node.tag', s, env) is not None)
+
+    def resolution(x, n):
+        kinds = set()
+
+        def one(s, m):
+            for src, k in RESOLUTIONS:
+                b = pmatch(src, s, env)
+                if b is not None and flow.every(m, b['__v'], lambda v, mm: pmatch('_N_node.value', v, env) is not None):
+                    kinds.add(k)
+                    return True
+            return False
+        if flow.every(n, x, one) and len(kinds) == 1:
+            return kinds.pop()
+        return None
+
+    def compare_kind(s, n):
+        b = pmatch('__a == __b', s)
+        if b is None:
+            return None
+        for tag, res in ((b['__a'], b['__b']), (b['__b'], b['__a'])):
+            if is_tag(tag, n):
+                k = resolution(res, n)
+                if k is not None:
+                    return k
+        return None
+
+    srcs = flow.sources(at, e)
+    if not srcs:
+        return None
+    # (1) the flag *is* the comparison
+    kinds = {compare_kind(s, n) for (s, n) in srcs}
+    if len(kinds) == 1 and None not in kinds:
+        return kinds.pop()
+    # (2) a 0/1 flag: cleared unconditionally, set exactly on the true edge of the comparison
+    if not isinstance(e, ast.Name):
+        return None
+    sets, clears = [], []
+    for d in flow.defs_at(at, e.id):
+        a = d.ast
+        if not (d.kind == 'stmt' and isinstance(a, ast.Assign) and len(a.targets) == 1 and isinstance(a.value, ast.Constant)):
+            return None
+        (sets if a.value.value else clears).append(d)
+    if not sets or not clears:
+        return None
+    kinds = set()
+    for n in cfg.nodes:
+        if n.kind == 'test':
+            k = compare_kind(n.ast, n)
+            if k is not None:
+                true_succ = [m for (m, l) in cfg.succ[n] if l is True]
+                # the comparison's true edge leads to the event only through a set, and every set lies behind that edge
+                if all(cfg.guarded(s, edges=[(n, True)]) for s in sets) and at not in cfg.reach(true_succ, blocked=sets, follow_exc=False):
+                    kinds.add(k)
+    return kinds.pop() if len(kinds) == 1 else None
+
+
 def r_resolver_shared(ctx, repo):
     rule = ctx.rule('R-RESOLVER-SHARED', 'safe dumpers and safe loaders resolve implicit tags with the same registry object, and the '
                                          'serializers compute implicit flags by resolve(ScalarNode, value, (True, False)) / ((False, True))')
@@ -155,43 +283,54 @@ def r_resolver_shared(ctx, repo):
         rule.fail('resolver-owner|%s' % sorted(owners.items()), 'lib/yaml/resolver.py', 1, 'yaml_implicit_resolvers',
                   'yaml_implicit_resolvers', 'dumper and loader classes do not share one implicit-resolver table: %s - strings that '
                   'look like another type on load are not recognised (and quoted) on dump' % owners)
-    for q, fname in (('serializer.Serializer', 'serialize_node'), ('_yaml.CEmitter', '_serialize_node')):
+    for q, fname, event, flag_args in (('serializer.Serializer', 'serialize_node', 'ScalarEvent', None),
+                                       ('_yaml.CEmitter', '_serialize_node', 'yaml_scalar_event_initialize', (5, 6))):
         f = repo.cls(q).methods.get(fname)
         if f is None:
             raise AnalysisError('%s.%s has vanished' % (q, fname))
-        calls = [c for c in A.func_calls(f.node) if norm(c.func) == 'self.resolve' and len(c.args) == 3
-                 and norm(c.args[0]) == 'ScalarNode']
-        flags = [norm(c.args[2]) for c in calls]
-        vals = [norm(c.args[1]) for c in calls]
-        if sorted(flags) == ['(False, True)', '(True, False)'] and all(v == 'node.value' for v in vals):
+        env = param_env(f, _N_node=1)
+        cfg = CFG(f.node)
+        flow = Flow(cfg, f.params)
+        res = _scalar_resolutions(f, env)
+        res_nodes = {id(c): _nodes_with(cfg, lambda x, c=c: x is c) for (c, k, v, fl) in res}
+        kinds = sorted({str(k) for (c, k, v, fl) in res})
+        own_text = all(rn and all(flow.every(n, v, lambda s, m: pmatch('_N_node.value', s, env) is not None) for n in rn)
+                       for (c, k, v, fl) in res for rn in [res_nodes[id(c)]])
+        if kinds == ['plain', 'quoted'] and own_text:
             rule.ok(f.loc(), '%s resolves node.value with (True, False) and (False, True)' % fname)
         else:
             rule.fail('%s|implicit-flags' % f.qualname, f.module.rel, f.node.lineno, f.qualname, 'self.resolve(ScalarNode, ...)',
                       '%s does not compute the plain / non-plain implicit flags by resolving the scalar\'s own text with '
-                      '(True, False) and (False, True): got %s' % (fname, list(zip(vals, flags))))
-        # the flags are compared with node.tag in that order
-        txt = norm(f.node)
-        if q.startswith('serializer'):
-            ok = 'implicit = (node.tag == detected_tag, node.tag == default_tag)' in txt and \
-                 'detected_tag = self.resolve(ScalarNode, node.value, (True, False))' in txt and \
-                 'default_tag = self.resolve(ScalarNode, node.value, (False, True))' in txt
-        else:
-            ok = 'if self.resolve(ScalarNode, node.value, (True, False)) == tag_object:\n    plain_implicit = 1' in _dedent_if(f, 'plain_implicit = 1') \
-                 and 'if self.resolve(ScalarNode, node.value, (False, True)) == tag_object:\n    quoted_implicit = 1' in _dedent_if(f, 'quoted_implicit = 1')
+                      '(True, False) and (False, True): got %s' % (fname, [(norm(v), norm(fl)) for (c, k, v, fl) in res]))
+        # the scalar event receives (plain flag, non-plain flag) in that order
+        events = []
+        for n in cfg.nodes:
+            if n.ast is None:
+                continue
+            for x in own_exprs(n):
+                if isinstance(x, ast.Call) and isinstance(x.func, ast.Name) and x.func.id == event:
+                    events.append((n, x))
+        if not events:
+            raise AnalysisError('%s: no %s(...) found' % (f.qualname, event))
+        ok = True
+        for n, call in events:
+            if flag_args is None:
+                imp = call_arg(call, 2, 'implicit')
+                pair = None
+                if imp is not None:
+                    srcs = flow.sources(n, imp)
+                    if srcs and len(srcs) == 1 and isinstance(srcs[0][0], ast.Tuple) and len(srcs[0][0].elts) == 2:
+                        pair = [(e, srcs[0][1]) for e in srcs[0][0].elts]
+            else:
+                pair = [(call.args[i], n) for i in flag_args] if len(call.args) > max(flag_args) else None
+            if pair is None or [_flag_kind(flow, at, e, env) for (e, at) in pair] != ['plain', 'quoted']:
+                ok = False
         if ok:
             rule.ok(f.loc(), '%s: implicit[0] <- plain resolution, implicit[1] <- non-plain resolution' % fname)
         else:
             rule.fail('%s|flag-order' % f.qualname, f.module.rel, f.node.lineno, f.qualname, 'implicit',
                       '%s pairs the plain / non-plain resolutions with the wrong implicit flag' % fname)
     return rule
-
-
-def _dedent_if(f, needle):
-    out = []
-    for n in walk_function(f.node):
-        if isinstance(n, ast.If) and needle in norm(n.body):
-            out.append('if %s:\n    %s' % (norm(n.test), norm(n.body[0])))
-    return '\n'.join(out)
 
 
 def r_event_brackets(ctx, repo):
@@ -204,32 +343,25 @@ def r_event_brackets(ctx, repo):
         if f is None or g is None:
             raise AnalysisError('%s.%s/%s have vanished' % (q, ser, sn))
         pyx = q.startswith('_yaml')
+        fcfg = CFG(f.node)
+        gcfg = CFG(g.node)
 
-        def event_nodes(func, name):
-            cfg = func._cfg
-            out = []
-            for n in cfg.nodes:
-                if n.ast is None:
-                    continue
-                for sub in own_exprs(n):
-                    if isinstance(sub, ast.Call) and ((not pyx and norm(sub.func) == name) or
-                                                      (pyx and norm(sub.func) == name)):
-                        out.append(n)
-            return out
-        f._cfg = CFG(f.node)
-        g._cfg = CFG(g.node)
-        ds = event_nodes(f, 'DocumentStartEvent' if not pyx else 'yaml_document_start_event_initialize')
-        de = event_nodes(f, 'DocumentEndEvent' if not pyx else 'yaml_document_end_event_initialize')
-        body = [n for n in f._cfg.nodes if n.ast is not None and any(
-            isinstance(s, ast.Call) and isinstance(s.func, ast.Attribute) and s.func.attr == sn for s in own_exprs(n))]
+        def event_nodes(cfg, name):
+            return _nodes_with(cfg, lambda x: isinstance(x, ast.Call) and isinstance(x.func, ast.Name) and x.func.id == name)
+
+        def child_calls(cfg):
+            return _nodes_with(cfg, _self_call(sn))
+        ds = event_nodes(fcfg, 'DocumentStartEvent' if not pyx else 'yaml_document_start_event_initialize')
+        de = event_nodes(fcfg, 'DocumentEndEvent' if not pyx else 'yaml_document_end_event_initialize')
+        body = child_calls(fcfg)
         ok = bool(ds) and bool(de) and bool(body)
         if ok:
             for b in body:
-                if not f._cfg.guarded(b, nodes=ds):
+                if not fcfg.guarded(b, nodes=ds):
                     ok = False
-                starts = [m for (m, lab) in f._cfg.succ[b] if lab != 'exc']
-                r = f._cfg.reach(starts, blocked=de, follow_exc=False)
-                if any(x in r for x in f._cfg.normal_exits()):
+                starts = [m for (m, lab) in fcfg.succ[b] if lab != 'exc']
+                r = fcfg.reach(starts, blocked=de, follow_exc=False)
+                if any(x in r for x in fcfg.normal_exits()):
                     ok = False
         if ok:
             rule.ok(f.loc(), '%s.%s: DocumentStart before, DocumentEnd after the node on every normal path' % (K.name, ser))
@@ -237,38 +369,32 @@ def r_event_brackets(ctx, repo):
             rule.fail('%s|document-bracket' % f.qualname, f.module.rel, f.node.lineno, f.qualname, 'DocumentStart/End',
                       '%s.%s does not bracket the serialized node with a document start and a document end event on every path'
                       % (K.name, ser))
+        kids = child_calls(gcfg)
         for start, end in ((('SequenceStartEvent', 'SequenceEndEvent') if not pyx else
                             ('yaml_sequence_start_event_initialize', 'yaml_sequence_end_event_initialize')),
                            (('MappingStartEvent', 'MappingEndEvent') if not pyx else
                             ('yaml_mapping_start_event_initialize', 'yaml_mapping_end_event_initialize'))):
-            sts, ens = event_nodes(g, start), event_nodes(g, end)
-            kids = [n for n in g._cfg.nodes if n.ast is not None and any(
-                isinstance(s, ast.Call) and isinstance(s.func, ast.Attribute) and s.func.attr == sn for s in own_exprs(n))]
+            sts, ens = event_nodes(gcfg, start), event_nodes(gcfg, end)
             good = bool(sts) and bool(ens)
             for s0 in sts:
-                starts = [m for (m, lab) in g._cfg.succ[s0] if lab != 'exc']
-                r = g._cfg.reach(starts, blocked=ens, follow_exc=False)
-                if any(x in r for x in g._cfg.normal_exits()):
+                starts = [m for (m, lab) in gcfg.succ[s0] if lab != 'exc']
+                r = gcfg.reach(starts, blocked=ens, follow_exc=False)
+                if any(x in r for x in gcfg.normal_exits()):
                     good = False
-            # the end event is not inside the child loop
+            # exactly one end per start: the end event is not repeated (it does not lie on a cycle, e.g. the child loop)
             for e0 in ens:
-                p = A.enclosing_stmt(e0.ast) if isinstance(e0.ast, ast.AST) else None
-                q2 = e0.stmt
-                while q2 is not None and q2 is not g.node:
-                    q2 = getattr(q2, '_parent', None)
-                    if isinstance(q2, (ast.For, ast.While)):
-                        good = False
+                if on_cycle(gcfg, e0):
+                    good = False
             if good:
                 rule.ok(g.loc(), '%s: %s ... children ... %s' % (sn, start, end))
             else:
                 rule.fail('%s|%s' % (g.qualname, start), g.module.rel, g.node.lineno, g.qualname, '%s/%s' % (start, end),
                           '%s does not close every %s with exactly one %s after its children' % (sn, start, end))
         # serialized_nodes[node] = True dominates the child calls
-        marks = [n for n in g._cfg.nodes if n.kind == 'stmt' and isinstance(n.ast, ast.Assign)
-                 and any(norm(t) == 'self.serialized_nodes[node]' for t in n.ast.targets)]
-        kids = [n for n in g._cfg.nodes if n.ast is not None and any(
-            isinstance(s, ast.Call) and isinstance(s.func, ast.Attribute) and s.func.attr == sn for s in own_exprs(n))]
-        if marks and kids and all(g._cfg.guarded(k, nodes=marks) for k in kids):
+        genv = param_env(g, _N_node=1)
+        marks = [n for n in gcfg.nodes if n.kind == 'stmt' and isinstance(n.ast, ast.Assign)
+                 and any(pmatch('self.serialized_nodes[_N_node]', t, genv) is not None for t in n.ast.targets)]
+        if marks and kids and all(gcfg.guarded(k, nodes=marks) for k in kids):
             rule.ok(g.loc(), '%s marks the node as serialized before its children (recursive nodes become aliases)' % sn)
         else:
             rule.fail('%s|mark-order' % g.qualname, g.module.rel, g.node.lineno, g.qualname, 'self.serialized_nodes[node] = True',
@@ -276,37 +402,76 @@ def r_event_brackets(ctx, repo):
     return rule
 
 
+def _is_table_dispatch(x):
+    """a call of an entry of the representer tables: self.yaml_representers[...](...) / self.yaml_multi_representers[...](...)"""
+    return isinstance(x, ast.Call) and isinstance(x.func, ast.Subscript) and isinstance(x.func.value, ast.Attribute) \
+        and x.func.value.attr in ('yaml_representers', 'yaml_multi_representers')
+
+
+def _dispatching_methods(repo, cls):
+    """names of the methods of cls that (transitively, through self-calls) call an entry of the representer tables."""
+    direct = set()
+    calls = {}
+    for k in cls.mro_classes():
+        for name, m in k.methods.items():
+            if name in calls:
+                continue
+            calls[name] = set()
+            for c in A.func_calls(m.node):
+                if _is_table_dispatch(c):
+                    direct.add(name)
+                if isinstance(c.func, ast.Attribute) and isinstance(c.func.value, ast.Name) and m.params and \
+                        c.func.value.id == m.params[0]:
+                    calls[name].add(c.func.attr)
+    out = set(direct)
+    changed = True
+    while changed:
+        changed = False
+        for name, cs in calls.items():
+            if name not in out and cs & out:
+                out.add(name)
+                changed = True
+    return out
+
+
+IMMUTABLE_ATOMS = {'str', 'bytes', 'bool', 'int', 'float', 'complex', 'type(None)', 'NoneType'}
+
+
 def r_alias_key(ctx, repo):
     rule = ctx.rule('R-ALIAS-KEY', 'represent_data keys represented_objects by id(data) only for objects that are kept alive in '
                                    'object_keeper for the whole document; ignore_aliases returns True only for immutable atoms')
     f = repo.func('representer.BaseRepresenter.represent_data')
+    env = param_env(f, _N_self=0, _N_data=1)
+    data = f.params[1]
     cfg = CFG(f.node)
-    ids = [n for n in cfg.nodes if n.kind == 'stmt' and isinstance(n.ast, ast.Assign) and isinstance(n.ast.value, ast.Call)
-           and norm(n.ast.value.func) == 'id']
-    keep = [n for n in cfg.nodes if n.ast is not None and any(
-        isinstance(s, ast.Call) and norm(s.func) == 'self.object_keeper.append' and s.args and norm(s.args[0]) == f.params[1]
-        for s in own_exprs(n))]
-    dispatch = [n for n in cfg.nodes if n.ast is not None and any(
-        isinstance(s, ast.Call) and (isinstance(s.func, ast.Subscript) and 'yaml_' in norm(s.func.value)) for s in own_exprs(n))]
-    if not ids or not dispatch:
-        raise AnalysisError('represent_data: id()/dispatch not found')
-    # every path on which alias_key is an id and the object is newly represented passes object_keeper.append(data)
-    none_edges = []
+    # the alias key: whatever receives id(data)
+    keys = []
     for n in cfg.nodes:
-        if n.kind == 'test' and norm(n.ast) == 'self.alias_key is not None':
-            none_edges.append((n, False))
-        if n.kind == 'test' and norm(n.ast) == 'self.ignore_aliases(%s)' % f.params[1]:
-            none_edges.append((n, True))
+        if n.kind == 'stmt' and isinstance(n.ast, ast.Assign) and any(
+                pmatch('id(_N_data)', x, env) is not None for x in ast.walk(n.ast.value)):
+            keys.extend(n.ast.targets)
+    keep = _nodes_with(cfg, lambda x: pmatch('self.object_keeper.append(_N_data)', x, env) is not None)
+    # the object is represented: an entry of the representer tables is called here, or in a method this one hands the
+    # object to
+    helpers = _dispatching_methods(repo, f.cls) - {f.name}
+
+    def represents(x):
+        if _is_table_dispatch(x):
+            return True
+        return isinstance(x, ast.Call) and isinstance(x.func, ast.Attribute) and isinstance(x.func.value, ast.Name) \
+            and x.func.value.id == f.params[0] and x.func.attr in helpers \
+            and any(isinstance(a, ast.Name) and a.id == data for a in list(x.args) + [k.value for k in x.keywords])
+    dispatch = _nodes_with(cfg, represents)
+    if not keys or not dispatch:
+        raise AnalysisError('represent_data: id()/dispatch not found')
+    # every path on which the object is represented under an id key passes object_keeper.append(data); paths on which
+    # the key is None (the `key is None` edge, the true edge of ignore_aliases(data)) need no keeper
+    none_edges = none_test_edges(cfg, keys)
+    none_edges += _test_edges(cfg, lambda inner: (True if pmatch('self.ignore_aliases(_N_data)', inner, env) is not None else None))
     ok = bool(keep)
     for d in dispatch:
-        # paths reaching the dispatch with an id key: block the "no key" edges and the keeper; must be unreachable
-        r = cfg.reach([cfg.entry], blocked=keep, blocked_edges=[(n, lab) for (n, lab) in none_edges
-                                                                   if norm(n.ast).startswith('self.alias_key')])
-        if d in r:
-            # reachable without keeper and without passing the `alias_key is None` branch?
-            r2 = cfg.reach([cfg.entry], blocked=keep, blocked_edges=none_edges)
-            if d in r2:
-                ok = False
+        if d in cfg.reach([cfg.entry], blocked=keep, blocked_edges=none_edges):
+            ok = False
     if ok:
         rule.ok(f.loc(), 'objects keyed by id() are appended to object_keeper before they are represented')
     else:
@@ -316,32 +481,58 @@ def r_alias_key(ctx, repo):
                   'of an unrelated earlier one')
     # ignore_aliases of the safe representer
     g = repo.func('representer.SafeRepresenter.ignore_aliases')
-    immutable = {'str', 'bytes', 'bool', 'int', 'float', 'complex', 'type(None)', 'NoneType'}
-    for ret in [n for n in walk_function(g.node) if isinstance(n, ast.Return) and isinstance(n.value, ast.Constant) and n.value.value is True]:
-        par = getattr(ret, '_parent', None)
-        ok = False
-        if isinstance(par, ast.If):
-            t = par.test
-            txt = norm(t)
-            if txt == '%s is None' % g.params[1]:
-                ok = True
-            else:
-                parts = t.values if isinstance(t, ast.BoolOp) and isinstance(t.op, ast.And) else [t]
-                inst = [p for p in parts if isinstance(p, ast.Call) and norm(p.func) == 'isinstance']
-                if inst:
-                    classes = inst[0].args[1].elts if isinstance(inst[0].args[1], ast.Tuple) else [inst[0].args[1]]
-                    names = {norm(c) for c in classes}
-                    if names <= immutable:
-                        ok = True
-                    elif names == {'tuple'} and any(norm(p) == '%s == ()' % g.params[1] for p in parts):
-                        ok = True
+    genv = param_env(g, _N_data=1)
+    gcfg = CFG(g.node)
+
+    def class_names(e):
+        return {norm(c) for c in (e.elts if isinstance(e, ast.Tuple) else [e])}
+
+    def atom_kind(inner):
+        """'atom' if the condition alone makes the value an immutable atom, 'tuple' / 'empty' for the two halves of the
+        empty-tuple test."""
+        if pmatch('_N_data is None', inner, genv) is not None:
+            return 'atom'
+        b = pmatch('isinstance(_N_data, __t)', inner, genv)
+        if b is not None:
+            names = class_names(b['__t'])
+            if names <= IMMUTABLE_ATOMS:
+                return 'atom'
+            if names == {'tuple'}:
+                return 'tuple'
+        if pmatch('_N_data == ()', inner, genv) is not None:
+            return 'empty'
+        return None
+    atom_edges = _test_edges(gcfg, lambda inner: True if atom_kind(inner) == 'atom' else None)
+    tuple_edges = _test_edges(gcfg, lambda inner: True if atom_kind(inner) == 'tuple' else None)
+    empty_edges = _test_edges(gcfg, lambda inner: True if atom_kind(inner) == 'empty' else None)
+    accept = list(atom_edges)
+    accept += [(n, lab) for (n, lab) in empty_edges if tuple_edges and gcfg.guarded(n, edges=tuple_edges)]
+    accept += [(n, lab) for (n, lab) in tuple_edges if empty_edges and gcfg.guarded(n, edges=empty_edges)]
+
+    def implies_atom(e):
+        """does the truth of expression e imply that the value is an immutable atom?"""
+        if isinstance(e, ast.BoolOp) and isinstance(e.op, ast.Or):
+            return all(implies_atom(v) for v in e.values)
+        if isinstance(e, ast.BoolOp) and isinstance(e.op, ast.And):
+            kinds = {atom_kind(A.strip_not(v)[0]) if A.strip_not(v)[1] else None for v in e.values}
+            return 'atom' in kinds or {'tuple', 'empty'} <= kinds or any(implies_atom(v) for v in e.values if isinstance(v, ast.BoolOp))
+        inner, pos = A.strip_not(e)
+        return pos and atom_kind(inner) == 'atom'
+    idx = 0
+    for ret in [n for n in gcfg.nodes if n.kind == 'return' and n.ast.value is not None]:
+        v = ret.ast.value
+        if isinstance(v, ast.Constant) and not v.value:
+            continue
+        idx += 1
+        ok = (accept and gcfg.guarded(ret, edges=accept)) or (not isinstance(v, ast.Constant) and implies_atom(v))
         if ok:
-            rule.ok(g.loc(ret), 'ignore_aliases -> True only under %s' % norm(par.test)[:50])
+            rule.ok(g.loc(ret.ast), 'ignore_aliases -> True only for None / immutable atoms / the empty tuple')
         else:
-            rule.fail('%s|%s' % (g.qualname, norm(par.test)[:60] if isinstance(par, ast.If) else 'return True'), g.module.rel,
-                      ret.lineno, g.qualname, norm(par.test)[:80] if isinstance(par, ast.If) else 'return True',
+            rule.fail('%s|true-return|%d' % (g.qualname, idx), g.module.rel, ret.lineno, g.qualname, norm(ret.ast)[:80],
                       'ignore_aliases returns True for values that are not immutable atoms: a mutable container referenced from '
                       'several places is written out separately each time and loads back as distinct objects')
+    if idx == 0:
+        raise AnalysisError('SafeRepresenter.ignore_aliases: no true result found')
     return rule
 
 
@@ -349,60 +540,82 @@ def r_sort_gate(ctx, repo):
     rule = ctx.rule('R-SORT-GATE', 'represent_mapping sorts the item list with sorted() on every path where sort_keys is set, the only '
                                    'handler catches TypeError and leaves the list untouched; sets are represented through a dict')
     f = repo.func('representer.BaseRepresenter.represent_mapping')
+    if len(f.params) < 3:
+        raise AnalysisError('represent_mapping: expected (self, tag, mapping, ...)')
     m = f.params[2]
-    sort_calls = [c for c in A.func_calls(f.node) if norm(c.func) == 'sorted' and c.args and norm(c.args[0]) == m]
+    cfg = CFG(f.node)
+    flow = Flow(cfg, f.params)
+    problems = []                # (code, text)
     inplace = [c for c in A.func_calls(f.node) if isinstance(c.func, ast.Attribute) and c.func.attr in ('sort', 'reverse')]
-    problems = []
     if inplace:
-        problems.append('sorts in place (%s): when the comparison fails half-way the list is left partially sorted instead of in '
-                        'insertion order, so the output depends on where the TypeError occurred' % norm(inplace[0]))
-    if len(sort_calls) != 1:
-        problems.append('%d sorted(%s) calls' % (len(sort_calls), m))
+        problems.append(('inplace', 'sorts in place (%s): when the comparison fails half-way the list is left partially sorted instead of in '
+                         'insertion order, so the output depends on where the TypeError occurred' % norm(inplace[0])))
+    # the item loop: the loop whose body represents the items
+    loops = [n for n in cfg.nodes if n.kind == 'for' and any(
+        _self_call('represent_data')(x) for s in n.stmt.body for x in ast.walk(s))]
+    item_loops = [n for n in loops if isinstance(n.ast, ast.Name)]
+    if not item_loops:
+        problems.append(('no-loop', 'the node is not built by iterating the item list'))
     else:
-        c = sort_calls[0]
-        st = A.enclosing_stmt(c)
-        if not (isinstance(st, ast.Assign) and norm(st.targets[0]) == m):
-            problems.append('the sorted list is not assigned back to %s' % m)
-        conds = []
-        p = c
-        tr = None
-        while p is not None and p is not f.node:
-            par = getattr(p, '_parent', None)
-            if isinstance(par, ast.If) and p in par.body:
-                conds.append(norm(par.test))
-            if isinstance(par, ast.Try) and p in par.body:
-                tr = par
-            p = par
-        if 'self.sort_keys' not in conds:
-            problems.append('sorting is not conditional on self.sort_keys alone')
-        extra = [x for x in conds if x not in ('self.sort_keys', "hasattr(%s, 'items')" % m)]
-        if extra:
-            problems.append('sorting is subject to extra conditions %s' % extra)
-        if tr is not None:
-            if len(tr.handlers) != 1 or norm(tr.handlers[0].type) != 'TypeError' or \
-                    not all(isinstance(s, ast.Pass) for s in tr.handlers[0].body):
-                problems.append('the handler around sorted() is not exactly `except TypeError: pass`')
-    # iteration happens over the (possibly sorted) list
-    loops = [n for n in walk_function(f.node) if isinstance(n, ast.For) and norm(n.iter) == m]
-    if not loops:
-        problems.append('the node is not built by iterating the item list')
+        loop = item_loops[0]
+        items = loop.ast.id
+
+        def from_mapping(e):
+            """the expression is (a copy of) the mapping / its item list"""
+            names = {x.id for x in ast.walk(e) if isinstance(x, ast.Name) and isinstance(x.ctx, ast.Load)}
+            return bool(names & {m, items}) and names <= {m, items, 'list', 'sorted'}
+        sorted_calls = [c for c in A.func_calls(f.node) if isinstance(c.func, ast.Name) and c.func.id == 'sorted']
+        sorts = [n for n in cfg.nodes if n.kind == 'stmt' and isinstance(n.ast, ast.Assign) and len(n.ast.targets) == 1
+                 and isinstance(n.ast.targets[0], ast.Name) and n.ast.targets[0].id == items
+                 and isinstance(n.ast.value, ast.Call) and n.ast.value in sorted_calls and len(n.ast.value.args) == 1
+                 and not n.ast.value.keywords and from_mapping(n.ast.value.args[0])]
+        if not sorted_calls:
+            problems.append(('no-sorted', 'no sorted(%s) call' % m))
+        elif len(sorts) != len(sorted_calls):
+            problems.append(('not-assigned', 'the sorted list is not assigned back to the item list'))
+        if sorts:
+            sk_edges = _test_edges(cfg, lambda inner: True if pmatch('self.sort_keys', inner) is not None else None)
+            if not sk_edges or not all(cfg.guarded(s, edges=sk_edges) for s in sorts):
+                problems.append(('unconditional', 'sorting is not conditional on self.sort_keys alone'))
+
+            def atom(t):
+                inner, pos = A.strip_not(t)
+                v = None
+                if pmatch('self.sort_keys', inner) is not None:
+                    v = True
+                elif pmatch("hasattr(__x, 'items')", inner) is not None:
+                    v = True
+                return v if (pos or v is None) else (not v)
+            # with sort_keys set (and a real mapping) every path to the item loop sorts
+            if loop in reach_under(cfg, atom, [cfg.entry], blocked=sorts):
+                problems.append(('extra-conditions', 'sorting is subject to extra conditions besides self.sort_keys'))
+            # a failing comparison: only TypeError is caught, and the handler leaves the list as it was
+            for s in sorts:
+                for (h, lab) in cfg.succ[s]:
+                    if lab != 'exc' or h.kind != 'handler':
+                        continue
+                    r = cfg.reach([h], blocked=[loop], follow_exc=False)
+                    touched = [x for x in r if x is not h and (x.kind == 'raise' or (x.ast is not None and any(
+                        isinstance(y, ast.Name) and y.id == items and isinstance(y.ctx, ast.Store) for y in own_exprs(x))) or any(
+                        isinstance(mu.root, ast.Name) and mu.root.id == items for mu in A.find_mutations(
+                            [y for y in own_exprs(x)] if x.ast is not None else [])))]
+                    if h.ast.type is None or norm(h.ast.type) != 'TypeError' or touched or loop not in cfg.reach([h], follow_exc=False):
+                        problems.append(('handler', 'the handler around sorted() is not exactly `except TypeError: pass`'))
     if problems:
-        rule.fail('%s|%s' % (f.qualname, ';'.join(problems)[:150]), f.module.rel, f.node.lineno, f.qualname, 'sorted(mapping)',
-                  'represent_mapping: ' + '; '.join(problems))
+        rule.fail('%s|%s' % (f.qualname, ';'.join(sorted({c for c, t in problems}))), f.module.rel, f.node.lineno, f.qualname,
+                  'sorted(mapping)', 'represent_mapping: ' + '; '.join(t for c, t in problems))
     else:
         rule.ok(f.loc(), 'items sorted with sorted() iff sort_keys; TypeError falls back to insertion order')
     g = repo.func('representer.SafeRepresenter.represent_set')
-    calls = [c for c in A.func_calls(g.node) if norm(c.func) == 'self.represent_mapping']
-    ok = False
-    if len(calls) == 1 and len(calls[0].args) >= 2:
-        a = calls[0].args[1]
-        if isinstance(a, ast.Name):
-            defs = [n.value for n in walk_function(g.node) if isinstance(n, ast.Assign)
-                    and any(isinstance(t, ast.Name) and t.id == a.id for t in n.targets)]
-            ok = bool(defs) and all(isinstance(d, (ast.Dict, ast.DictComp)) or
-                                    (isinstance(d, ast.Call) and norm(d.func) in ('dict', 'dict.fromkeys')) for d in defs)
-        elif isinstance(a, (ast.Dict, ast.DictComp)) or (isinstance(a, ast.Call) and norm(a.func) in ('dict', 'dict.fromkeys')):
-            ok = True
+
+    def is_dict_expr(d):
+        return isinstance(d, (ast.Dict, ast.DictComp)) or (isinstance(d, ast.Call) and norm(d.func) in ('dict', 'dict.fromkeys'))
+    calls = [c for c in A.func_calls(g.node) if _self_call('represent_mapping')(c)]
+    ok = bool(calls)
+    for c in calls:
+        a = call_arg(c, 1, 'mapping')
+        if a is None or not is_every_source(g.node, a, is_dict_expr):
+            ok = False
     if ok:
         rule.ok(g.loc(), 'represent_set goes through a dict, hence through the sort gate')
     else:
@@ -432,13 +645,19 @@ def r_no_nondeterminism(ctx, repo):
             if fn in NONDET or root in ('random', 'time', 'uuid', 'secrets') or fn.startswith('os.'):
                 bad.append((c, fn))
             if fn == 'id':
-                ok = f.qualname == 'representer.BaseRepresenter.represent_data' and \
-                    isinstance(A.enclosing_stmt(c), ast.Assign) and norm(A.enclosing_stmt(c).targets[0]) == 'self.alias_key'
+                # the one legitimate use: the whole value (or one arm of a conditional value) of the assignment that sets
+                # the alias key in represent_data, with the represented object as argument
+                st = A.enclosing_stmt(c)
+                ok = f.qualname == 'representer.BaseRepresenter.represent_data' and isinstance(st, ast.Assign) and \
+                    len(c.args) == 1 and isinstance(c.args[0], ast.Name) and len(f.params) > 1 and c.args[0].id == f.params[1] and \
+                    (st.value is c or (isinstance(st.value, ast.IfExp) and (st.value.body is c or st.value.orelse is c)))
                 if not ok:
                     bad.append((c, 'id() outside the alias key'))
         for node in walk_function(f.node):
             if isinstance(node, ast.BinOp) and isinstance(node.op, ast.Mod) and any(
                     isinstance(x, ast.Call) and norm(x.func) == 'id' for x in ast.walk(node.right)):
+                bad.append((node, 'id() formatted into text'))
+            if isinstance(node, ast.JoinedStr) and any(isinstance(x, ast.Call) and norm(x.func) == 'id' for x in ast.walk(node)):
                 bad.append((node, 'id() formatted into text'))
         if bad:
             for c, what in bad:
@@ -480,24 +699,65 @@ def r_no_nondeterminism(ctx, repo):
     return rule
 
 
+REORDERING = ('sorted', 'reversed', 'set', 'frozenset')
+
+
 def r_insertion_order_load(ctx, repo):
     rule = ctx.rule('R-INSERTION-ORDER-LOAD', 'construct_mapping / construct_pairs / compose_mapping_node insert in document order')
-    for q, target in (('constructor.BaseConstructor.construct_mapping', 'mapping'), ('constructor.BaseConstructor.construct_pairs', 'pairs')):
+    for q in ('constructor.BaseConstructor.construct_mapping', 'constructor.BaseConstructor.construct_pairs'):
         f = repo.func(q)
-        loops = [n for n in walk_function(f.node) if isinstance(n, ast.For)]
-        ok = len(loops) == 1 and norm(loops[0].iter) == '%s.value' % f.params[1] and \
-            not any(isinstance(c.func, ast.Name) and c.func.id in ('sorted', 'reversed', 'set') for c in A.func_calls(f.node))
+        env = param_env(f, _N_node=1)
+        # the loops that construct the children walk node.value itself, front to back
+        loops = [n for n in walk_function(f.node) if isinstance(n, (ast.For, ast.comprehension)) and any(
+            _self_call('construct_object')(x) for x in ast.walk(getattr(n, '_parent', n) if isinstance(n, ast.comprehension) else n))]
+        ok = bool(loops) and all(is_every_source(f.node, l.iter, lambda e: pmatch('_N_node.value', e, env) is not None, f.params)
+                                 for l in loops) and \
+            not any(isinstance(c.func, ast.Name) and c.func.id in REORDERING for c in A.func_calls(f.node)) and \
+            not any(isinstance(c.func, ast.Attribute) and c.func.attr in ('sort', 'reverse', 'insert') for c in A.func_calls(f.node))
         if ok:
             rule.ok(f.loc(), '%s iterates node.value in order' % f.name)
         else:
             rule.fail('%s|order' % f.qualname, f.module.rel, f.node.lineno, f.qualname, 'for ... in node.value',
                       '%s no longer inserts the pairs in the order of node.value' % f.name)
-    for q in ('composer.Composer.compose_mapping_node', '_yaml.CParser._compose_mapping_node'):
+    for q, comp in (('composer.Composer.compose_mapping_node', 'compose_node'), ('_yaml.CParser._compose_mapping_node', '_compose_node')):
         f = repo.func(q)
-        apps = [c for c in A.func_calls(f.node) if isinstance(c.func, ast.Attribute) and c.func.attr == 'append'
-                and 'value' in norm(c.func.value)]
-        ins = [c for c in A.func_calls(f.node) if isinstance(c.func, ast.Attribute) and c.func.attr in ('insert', 'sort', 'reverse')]
-        if len(apps) == 1 and not ins and norm(apps[0].args[0]) == '(item_key, item_value)':
+        cfg = CFG(f.node)
+        defs = local_defs(f.node)
+        # the node under construction and its pair list
+        nodes = {nm for nm, ds in defs.items() if ds and all(
+            d is not None and isinstance(d, ast.Call) and isinstance(d.func, ast.Name) and d.func.id == 'MappingNode' for d in ds)}
+        lists = {a.id for nm in nodes for d in defs[nm] for a in list(d.args) + [k.value for k in d.keywords] if isinstance(a, ast.Name)
+                 and defs.get(a.id) and all(isinstance(x, ast.List) and not x.elts for x in defs[a.id] if x is not None)}
+
+        def is_pair_list(e):
+            return (isinstance(e, ast.Attribute) and e.attr == 'value' and isinstance(e.value, ast.Name) and e.value.id in nodes) or \
+                (isinstance(e, ast.Name) and e.id in lists)
+        composed = {}                 # local -> CFG nodes where it receives self.compose_node(...)
+        for n in cfg.nodes:
+            if n.kind == 'stmt' and isinstance(n.ast, ast.Assign) and len(n.ast.targets) == 1 and isinstance(n.ast.targets[0], ast.Name) \
+                    and _self_call(comp)(n.ast.value):
+                composed.setdefault(n.ast.targets[0].id, []).append(n)
+        adds = [(n, x) for n in cfg.nodes if n.ast is not None for x in own_exprs(n)
+                if isinstance(x, ast.Call) and isinstance(x.func, ast.Attribute) and is_pair_list(x.func.value)]
+        good = bool(adds)
+        for n, c in adds:
+            if c.func.attr != 'append' or len(c.args) != 1:
+                good = False          # insert / extend / sort / reverse ... on the pair list
+                continue
+            t = c.args[0]
+            if not (isinstance(t, ast.Tuple) and len(t.elts) == 2 and all(isinstance(e, ast.Name) for e in t.elts)):
+                good = False
+                continue
+            k, v = t.elts[0].id, t.elts[1].id
+            kd, vd = composed.get(k, []), composed.get(v, [])
+            # key composed first, then the value, then the pair is appended - and nothing else is ever bound to them
+            if not kd or not vd or k == v or len(defs.get(k, [])) != len(kd) or len(defs.get(v, [])) != len(vd):
+                good = False
+            elif not all(cfg.guarded(x, nodes=kd) for x in vd) or not cfg.guarded(n, nodes=vd):
+                good = False
+            elif any(x in cfg.reach([m for (m, l) in cfg.succ[y] if l != 'exc'], blocked=[n], follow_exc=False) for y in vd for x in kd):
+                good = False          # a second key could be composed before the pair is appended
+        if good:
             rule.ok(f.loc(), '%s appends pairs in event order' % f.name)
         else:
             rule.fail('%s|order' % f.qualname, f.module.rel, f.node.lineno, f.qualname, 'node.value.append((item_key, item_value))',
@@ -507,9 +767,59 @@ def r_insertion_order_load(ctx, repo):
 
 # ------------------------------------------------------------------------------------------------ C14
 
+def _kind_edges(cfg, var, kind):
+    """edges on which isinstance(<var>, <kind class>) holds; `var` is a local / parameter name."""
+    def m(inner):
+        if isinstance(inner, ast.Call) and norm(inner.func) == 'isinstance' and len(inner.args) == 2 \
+                and isinstance(inner.args[0], ast.Name) and inner.args[0].id == var and norm(inner.args[1]) == kind:
+            return True
+        return None
+    return _test_edges(cfg, m)
+
+
+def _value_uses(cfg, var, kinds=None):
+    """CFG nodes that read <var>.value other than to take its length."""
+    out = []
+    for n in cfg.nodes:
+        if n.ast is None or (kinds is not None and n.kind not in kinds):
+            continue
+        for s in own_exprs(n):
+            if isinstance(s, ast.Attribute) and s.attr == 'value' and isinstance(s.value, ast.Name) and s.value.id == var:
+                par = getattr(s, '_parent', None)
+                if isinstance(par, ast.Call) and norm(par.func) == 'len' and par.args and par.args[0] is s:
+                    continue
+                out.append(n)
+                break
+    return out
+
+
+def _pair_site(repo, f, idx, _depth=0):
+    """(function, node parameter name) where a sequence of single-pair mappings is walked: the constructor itself, or
+    the method it hands its node to."""
+    node = f.params[idx]
+    env = {'_N_node': name_node(node)}
+    for n in walk_function(f.node):
+        if isinstance(n, (ast.For, ast.comprehension)) and is_every_source(
+                f.node, n.iter, lambda e: pmatch('_N_node.value', e, env) is not None, f.params):
+            return f, node
+    if _depth >= 3 or f.cls is None:
+        return None
+    for c in A.func_calls(f.node):
+        if isinstance(c.func, ast.Attribute) and isinstance(c.func.value, ast.Name) and c.func.value.id == f.params[0]:
+            found = repo.lookup(f.cls, c.func.attr)
+            if not found or not isinstance(found[1], FuncInfo):
+                continue
+            for i, a in enumerate(c.args):
+                if isinstance(a, ast.Name) and a.id == node and i + 1 < len(found[1].params):
+                    r = _pair_site(repo, found[1], i + 1, _depth + 1)
+                    if r is not None:
+                        return r
+    return None
+
+
 def r_shape_dispatch_total(ctx, repo):
     """node-shape guards in the constructors: every use of a node as mapping/sequence/scalar is dominated by the isinstance
-    test whose failure raises ConstructorError (uses sa.partial for the generic part)."""
+    test whose failure raises ConstructorError."""
     rule = ctx.rule('R-SHAPE-DISPATCH-TOTAL', 'every use of a node as scalar / sequence / mapping / single-pair mapping in the core '
                                               'constructors is dominated by the isinstance / length test whose failure raises ConstructorError')
     cerr = repo.cls('constructor.ConstructorError')
@@ -521,34 +831,20 @@ def r_shape_dispatch_total(ctx, repo):
         f = repo.func(q)
         cfg = CFG(f.node)
         node = f.params[1]
-        uses = [n for n in cfg.nodes if n.ast is not None and any(
-            isinstance(s, ast.Attribute) and s.attr == 'value' and norm(s.value) == node for s in own_exprs(n))]
-        edges = []
-        for n in cfg.nodes:
-            if n.kind == 'test':
-                inner, pos = A.strip_not(n.ast)
-                if isinstance(inner, ast.Call) and norm(inner.func) == 'isinstance' and norm(inner.args[0]) == node \
-                        and norm(inner.args[1]) == kind:
-                    edges.append((n, pos))
-                    # the failing edge raises ConstructorError
-                    succ = [m for (m, lab) in cfg.succ[n] if lab != pos]
-                    r = cfg.reach(succ)
-                    raises = [x for x in r if x.kind == 'raise' and isinstance(x.ast, ast.Raise)]
-                    good = raises and not any(x in r for x in cfg.normal_exits())
-                    for x in raises:
-                        t = x.ast.exc.func if isinstance(x.ast.exc, ast.Call) else x.ast.exc
-                        ref = repo.resolve_expr(f.module, t)
-                        if not (ref is not None and ref.kind == 'class' and ref.obj.is_subclass_of(cerr)):
-                            good = False
-                    if good:
-                        rule.ok(f.loc(n.ast), '%s: wrong node kind -> ConstructorError' % f.name)
-                    else:
-                        rule.fail('%s|reject' % f.qualname, f.module.rel, n.lineno, f.qualname, norm(n.ast),
-                                  '%s does not reject a node of the wrong kind with ConstructorError' % f.name)
+        uses = _value_uses(cfg, node)
+        edges = _kind_edges(cfg, node, kind)
+        for (n, pos) in edges:
+            # the failing edge raises ConstructorError
+            only, raises = only_raises(cfg, [m for (m, lab) in cfg.succ[n] if lab != pos and lab != 'exc'])
+            if only and raises and all(raise_class_ok(repo, f, x, cerr) for x in raises):
+                rule.ok(f.loc(n.ast), '%s: wrong node kind -> ConstructorError' % f.name)
+            else:
+                rule.fail('%s|reject' % f.qualname, f.module.rel, n.lineno, f.qualname, norm(n.ast),
+                          '%s does not reject a node of the wrong kind with ConstructorError' % f.name)
         for u in uses:
             if edges and cfg.guarded(u, edges=edges):
-                rule.ok(f.loc(u.ast) if isinstance(u.ast, ast.AST) else f.loc(), '%s.value used only after isinstance(%s, %s)'
-                        % (node, node, kind))
+                rule.ok(f.loc(u.ast) if isinstance(u.ast, ast.AST) else f.loc(), '%s: the node\'s value is used only after isinstance(node, %s)'
+                        % (f.name, kind))
             else:
                 rule.fail('%s|use' % f.qualname, f.module.rel, u.lineno, f.qualname, norm(u.ast).split('\n')[0][:70],
                           '%s uses %s.value without a dominating isinstance(%s, %s) test: a node of another kind under this tag '
@@ -556,87 +852,172 @@ def r_shape_dispatch_total(ctx, repo):
                           % (f.name, node, node, kind))
         if not uses or not edges:
             raise AnalysisError('%s: node kind guard not found' % q)
-    # omap / pairs / merge shape guards
+    # omap / pairs: a sequence whose entries are mappings with exactly one pair
     for q in ('constructor.SafeConstructor.construct_yaml_omap', 'constructor.SafeConstructor.construct_yaml_pairs'):
         f = repo.func(q)
-        cfg = CFG(f.node)
-        need = [('isinstance(node, SequenceNode)', 'for'), ('isinstance(subnode, MappingNode)', 'unpack'),
-                ('len(subnode.value) != 1', 'unpack')]
-        unpack = [n for n in cfg.nodes if n.kind == 'stmt' and isinstance(n.ast, ast.Assign)
-                  and isinstance(n.ast.targets[0], ast.Tuple) and 'subnode.value[0]' in norm(n.ast.value)]
-        loops = [n for n in cfg.nodes if n.kind == 'for' and norm(n.ast) == 'node.value']
-        if not unpack or not loops:
-            raise AnalysisError('%s: omap/pairs shape not recognised' % q)
+        site = _pair_site(repo, f, 1)
+        if site is None:
+            raise AnalysisError('%s: omap/pairs shape not recognised (no loop over the entries of the node)' % q)
+        g, node = site
+        cfg = CFG(g.node)
+        env = {'_N_node': name_node(node)}
+        loops = [n for n in cfg.nodes if n.kind == 'for' and is_every_source(
+            g.node, n.ast, lambda e: pmatch('_N_node.value', e, env) is not None, g.params)]
+        entries = [(n, n.stmt.target.id) for n in loops if isinstance(n.stmt.target, ast.Name)]
+        if not entries or len(entries) != len(loops):
+            raise AnalysisError('%s: omap/pairs shape not recognised (entries are not bound to a name)' % q)
+        seq_edges = _kind_edges(cfg, node, 'SequenceNode')
+        checks = []
+        for loop, sub in entries:
+            uses = _value_uses(cfg, sub)
+            if not uses:
+                raise AnalysisError('%s: omap/pairs shape not recognised (the entries\' pairs are never read)' % q)
+            senv = {'_N_sub': name_node(sub)}
 
-        def guard_edges(text):
-            out = []
-            for n in cfg.nodes:
-                if n.kind == 'test':
-                    inner, pos = A.strip_not(n.ast)
-                    if norm(inner) == text:
-                        out.append((n, pos))
-                    if text.endswith('!= 1') and norm(inner) == text.replace('!= 1', '== 1'):
-                        out.append((n, not pos))
-            return out
-        checks = [(loops[0], guard_edges('isinstance(node, SequenceNode)'), 'the node is a sequence'),
-                  (unpack[0], guard_edges('isinstance(subnode, MappingNode)'), 'each entry is a mapping'),
-                  (unpack[0], [(n, not lab) for (n, lab) in guard_edges('len(subnode.value) != 1')], 'each entry has exactly one pair')]
+            def one(inner):
+                for src, lab in (('len(_N_sub.value) != 1', False), ('len(_N_sub.value) == 1', True)):
+                    if pmatch(src, inner, senv) is not None:
+                        return lab
+                return None
+            checks.append((loop, seq_edges, 'the node is a sequence'))
+            for u in uses:
+                checks.append((u, _kind_edges(cfg, sub, 'MappingNode'), 'each entry is a mapping'))
+                checks.append((u, _test_edges(cfg, one), 'each entry has exactly one pair'))
         for target, edges, what in checks:
             if edges and cfg.guarded(target, edges=edges):
                 rule.ok(f.loc(), '%s checks that %s' % (f.name, what))
             else:
-                rule.fail('%s|%s' % (f.qualname, what), f.module.rel, target.lineno, f.qualname, norm(target.ast).split('\n')[0][:70],
+                rule.fail('%s|%s' % (f.qualname, what), g.module.rel, target.lineno, f.qualname, norm(target.ast).split('\n')[0][:70],
                           '%s no longer checks that %s before using it: an ill-shaped !!omap/!!pairs value raises '
-                          'TypeError/ValueError/IndexError instead of ConstructorError' % (f.name, what))
+                          'TypeError/ValueError/IndexError instead of ConstructorError (or is silently accepted)' % (f.name, what))
+        # a failing shape test raises ConstructorError
+        for (n, pos) in seq_edges + [e for (loop, sub) in entries for e in _kind_edges(cfg, sub, 'MappingNode')]:
+            only, raises = only_raises(cfg, [m for (m, lab) in cfg.succ[n] if lab != pos and lab != 'exc'])
+            if only and raises and all(raise_class_ok(repo, g, x, cerr) for x in raises):
+                rule.ok(g.loc(n.ast), '%s: ill-shaped value -> ConstructorError' % f.name)
+            else:
+                rule.fail('%s|reject|%s' % (f.qualname, norm(n.ast.args[1]) if isinstance(n.ast, ast.Call) else ''), g.module.rel,
+                          n.lineno, f.qualname, norm(n.ast), '%s does not reject an ill-shaped value with ConstructorError' % f.name)
+    # merge keys: the value of `<<` and the entries of a merge list are used as mappings / sequences only under the
+    # matching isinstance test, anything else is rejected with ConstructorError
     f = repo.func('constructor.SafeConstructor.flatten_mapping')
     cfg = CFG(f.node)
-    # merging uses value_node.value / subnode.value only under MappingNode tests; the sequence branch under SequenceNode
-    for var, kind in (('value_node', 'MappingNode'), ('subnode', 'MappingNode')):
-        uses = [n for n in cfg.nodes if n.ast is not None and n.kind != 'test' and any(
-            isinstance(s, ast.Attribute) and s.attr == 'value' and norm(s.value) == var for s in own_exprs(n))
-            and not (n.kind == 'for')]
-        edges = []
-        for n in cfg.nodes:
-            if n.kind == 'test':
-                inner, pos = A.strip_not(n.ast)
-                if norm(inner) == 'isinstance(%s, %s)' % (var, kind):
-                    edges.append((n, pos))
+    node = f.params[1]
+    derived = _derived_nodes(f.node, node)
+    n_checked = n_reject = 0
+    for var in sorted(derived):
+        uses = _value_uses(cfg, var, kinds=('stmt', 'for', 'return'))
+        if not uses:
+            continue
+        map_edges = _kind_edges(cfg, var, 'MappingNode')
+        seq_edges = _kind_edges(cfg, var, 'SequenceNode')
+        role = derived[var]
         for u in uses:
+            n_checked += 1
+            edges = map_edges + (seq_edges if u.kind == 'for' else [])
             if edges and cfg.guarded(u, edges=edges):
-                rule.ok(f.loc(), 'flatten_mapping merges %s only if it is a mapping' % var)
+                rule.ok(f.loc(), 'flatten_mapping reads the pairs of %s only if it is a mapping%s'
+                        % (role, ' / iterates it only if it is a sequence' if u.kind == 'for' else ''))
             else:
-                rule.fail('%s|%s' % (f.qualname, var), f.module.rel, u.lineno, f.qualname, norm(u.ast).split('\n')[0][:70],
-                          'flatten_mapping merges %s.value without checking that %s is a mapping node' % (var, var))
-    # the final else of the merge-value dispatch raises ConstructorError
-    raises = [n for n in walk_function(f.node) if isinstance(n, ast.Raise)]
-    if len(raises) >= 2:
-        rule.ok(f.loc(), 'flatten_mapping rejects non-mapping merge values (2 raise sites)')
-    else:
-        rule.fail('%s|reject' % f.qualname, f.module.rel, f.node.lineno, f.qualname, 'raise ConstructorError',
-                  'flatten_mapping no longer rejects merge values that are neither a mapping nor a list of mappings')
+                rule.fail('%s|%s' % (f.qualname, role), f.module.rel, u.lineno, f.qualname, norm(u.ast).split('\n')[0][:70],
+                          'flatten_mapping merges the value of %s (%s.value) without checking that it is a mapping node' % (role, var))
+        tests = map_edges + seq_edges
+        if tests:
+            n_reject += 1
+
+            def atom(t, var=var):
+                inner, pos = A.strip_not(t)
+                if isinstance(inner, ast.Call) and norm(inner.func) == 'isinstance' and len(inner.args) == 2 \
+                        and isinstance(inner.args[0], ast.Name) and inner.args[0].id == var:
+                    return (not pos)
+                return None
+            starts = [m for (n, pos) in tests for (m, lab) in cfg.succ[n] if lab != pos and lab != 'exc']
+            only, raises = only_raises(cfg, starts, atom)
+            if only and raises and all(raise_class_ok(repo, f, x, cerr) for x in raises):
+                rule.ok(f.loc(), 'flatten_mapping rejects %s of any other kind with ConstructorError' % role)
+            else:
+                rule.fail('%s|reject|%s' % (f.qualname, role), f.module.rel, tests[0][0].lineno, f.qualname, 'raise ConstructorError',
+                          'flatten_mapping no longer rejects merge values that are neither a mapping nor a list of mappings '
+                          '(%s of another kind is not answered with ConstructorError)' % role)
+    if n_checked < 1 or n_reject < 1:
+        raise AnalysisError('flatten_mapping: no use of a merge value under a node-kind test found')
     return rule
+
+
+def _derived_nodes(fnode, node):
+    """{local name: role description} of the locals that hold nodes taken out of <node>.value (pair elements, entries of
+    a merge list), transitively."""
+    derived = {}
+    tracked = {node: 'the node'}
+    changed = True
+
+    def from_tracked(e):
+        """e is T.value / T.value[i] for a tracked T -> T"""
+        if isinstance(e, ast.Subscript):
+            e = e.value
+        if isinstance(e, ast.Attribute) and e.attr == 'value' and isinstance(e.value, ast.Name) and e.value.id in tracked:
+            return e.value.id
+        return None
+    while changed:
+        changed = False
+        for n in walk_function(fnode):
+            tgt = src = None
+            if isinstance(n, ast.Assign) and len(n.targets) == 1 and isinstance(n.value, ast.Subscript):
+                tgt, src = n.targets[0], from_tracked(n.value)
+            elif isinstance(n, (ast.For, ast.comprehension)):
+                tgt, src = n.target, from_tracked(n.iter) if not isinstance(n.iter, ast.Subscript) else None
+            if src is None:
+                continue
+            names = [x for x in (tgt.elts if isinstance(tgt, (ast.Tuple, ast.List)) else [tgt]) if isinstance(x, ast.Name)]
+            for i, x in enumerate(names):
+                if x.id not in tracked:
+                    if isinstance(tgt, (ast.Tuple, ast.List)):
+                        role = 'the %s node of a pair of %s' % ('key' if i == 0 else 'value', tracked[src])
+                    else:
+                        role = 'an entry of %s' % tracked[src]
+                    tracked[x.id] = role
+                    derived[x.id] = role
+                    changed = True
+    return derived
+
+
+HASHABLE = ('collections.abc.Hashable', 'Hashable', 'collections.Hashable')
 
 
 def r_hashable_guard(ctx, repo):
     rule = ctx.rule('R-HASHABLE-GUARD', 'the dict store of construct_mapping is dominated by `not isinstance(key, Hashable) -> raise '
                                         'ConstructorError`; sets and maps obtain their content only through construct_mapping')
     f = repo.func('constructor.BaseConstructor.construct_mapping')
+    cerr = repo.cls('constructor.ConstructorError')
     cfg = CFG(f.node)
-    stores = [n for n in cfg.nodes if n.kind == 'stmt' and isinstance(n.ast, ast.Assign)
-              and isinstance(n.ast.targets[0], ast.Subscript) and isinstance(n.ast.targets[0].value, ast.Name)]
+    # key stores: item assignment / setdefault / update on a local dict
+    stores = []
+    for n in cfg.nodes:
+        if n.kind == 'stmt' and isinstance(n.ast, ast.Assign):
+            for t in n.ast.targets:
+                if isinstance(t, ast.Subscript) and isinstance(t.value, ast.Name):
+                    stores.append((n, t.slice))
+        if n.ast is not None and n.kind == 'stmt':
+            for x in own_exprs(n):
+                if isinstance(x, ast.Call) and isinstance(x.func, ast.Attribute) and x.func.attr in ('setdefault', '__setitem__') \
+                        and isinstance(x.func.value, ast.Name) and x.args:
+                    stores.append((n, x.args[0]))
     if not stores:
         raise AnalysisError('construct_mapping: dict store not found')
-    for s in stores:
-        key = norm(s.ast.targets[0].slice)
-        edges = []
-        for n in cfg.nodes:
-            if n.kind == 'test':
-                inner, pos = A.strip_not(n.ast)
-                if isinstance(inner, ast.Call) and norm(inner.func) == 'isinstance' and norm(inner.args[0]) == key \
-                        and norm(inner.args[1]) in ('collections.abc.Hashable', 'Hashable', 'collections.Hashable'):
-                    edges.append((n, pos))
-        if edges and cfg.guarded(s, edges=edges):
-            rule.ok(f.loc(s.ast), 'mapping[%s] = ... only for Hashable keys' % key)
+    for s, key in stores:
+        def hashable(inner, key=key):
+            if isinstance(inner, ast.Call) and norm(inner.func) == 'isinstance' and len(inner.args) == 2 and same(inner.args[0], key) \
+                    and norm(inner.args[1]) in HASHABLE:
+                return True
+            return None
+        edges = _test_edges(cfg, hashable)
+        rejects = True
+        for (n, pos) in edges:
+            only, raises = only_raises(cfg, [m for (m, lab) in cfg.succ[n] if lab != pos and lab != 'exc'])
+            if not (only and raises and all(raise_class_ok(repo, f, x, cerr) for x in raises)):
+                rejects = False
+        if edges and rejects and cfg.guarded(s, edges=edges):
+            rule.ok(f.loc(s.ast), 'the dict store happens only for Hashable keys')
         else:
             rule.fail('%s|hashable' % f.qualname, f.module.rel, s.lineno, f.qualname, norm(s.ast),
                       'a key is stored in the dict without a dominating isinstance(key, collections.abc.Hashable) test: an '
@@ -658,41 +1039,46 @@ def r_merge_shape(ctx, repo):
                                      'places merged pairs before the node\'s own pairs (node.value = merged + node.value)')
     f = repo.func('constructor.SafeConstructor.flatten_mapping')
     node = f.params[1]
+    own = '%s.value' % node
     # locals that may alias the value list of another node
-    foreign = set()
+    foreign = {}
     for n in walk_function(f.node):
         if isinstance(n, ast.Assign) and isinstance(n.value, ast.Attribute) and n.value.attr == 'value' \
                 and norm(n.value.value) != node:
             for t in n.targets:
                 if isinstance(t, ast.Name):
-                    foreign.add((t.id, norm(n.value)))
-    for name, src in foreign:
-        for m in A.find_mutations(f.node):
-            if isinstance(m.root, ast.Name) and m.root.id == name and m.kind != 'rebind':
-                rule.fail('%s|foreign|%s' % (f.qualname, name), f.module.rel, m.node.lineno, f.qualname, norm(m.stmt)[:70],
-                          'the local %s may be the value list of another node (%s) and is mutated here: flattening one mapping '
-                          'changes a merge source that other mappings share' % (name, src))
-    for m in A.find_mutations(f.node):
-        root = norm(m.root)
-        if root.endswith('.value') and root != '%s.value' % node and m.kind != 'rebind':
-            rule.fail('%s|foreign|%s' % (f.qualname, root), f.module.rel, m.node.lineno, f.qualname, norm(m.stmt)[:70],
-                      'flatten_mapping mutates %s, the value list of a node other than the one being flattened' % root)
+                    foreign.setdefault(t.id, norm(n.value))
+    muts = A.find_mutations(f.node)
+    n_foreign = 0
+    for m in muts:
+        if isinstance(m.root, ast.Name) and m.root.id in foreign and m.kind != 'rebind':
+            n_foreign += 1
+            rule.fail('%s|foreign|alias|%d' % (f.qualname, n_foreign), f.module.rel, m.node.lineno, f.qualname, norm(m.stmt)[:70],
+                      'the local %s may be the value list of another node (%s) and is mutated here: flattening one mapping '
+                      'changes a merge source that other mappings share' % (m.root.id, foreign[m.root.id]))
+    for m in muts:
+        root = m.root
+        if isinstance(root, ast.Attribute) and root.attr == 'value' and norm(root) != own and m.kind != 'rebind':
+            n_foreign += 1
+            rule.fail('%s|foreign|value|%d' % (f.qualname, n_foreign), f.module.rel, m.node.lineno, f.qualname, norm(m.stmt)[:70],
+                      'flatten_mapping mutates %s, the value list of a node other than the one being flattened' % norm(root))
     # mutations of node.value: deletion of merge keys and one final prepend
-    n_ok = 0
-    for m in A.find_mutations(f.node):
-        if norm(m.root) == '%s.value' % node or (m.kind == 'rebind' and norm(m.receiver) == '%s.value' % node):
+    n_del = n_prepend = n_other = 0
+    for m in muts:
+        if norm(m.root) == own or (m.kind == 'rebind' and norm(m.receiver) == own):
             if m.kind == 'delitem':
-                n_ok += 1
+                n_del += 1
                 continue
             if m.kind == 'rebind' and isinstance(m.stmt, ast.Assign) and isinstance(m.stmt.value, ast.BinOp) \
-                    and isinstance(m.stmt.value.op, ast.Add) and norm(m.stmt.value.right) == '%s.value' % node \
-                    and isinstance(m.stmt.value.left, ast.Name):
-                n_ok += 1
+                    and isinstance(m.stmt.value.op, ast.Add) and norm(m.stmt.value.right) == own \
+                    and isinstance(m.stmt.value.left, ast.Name) and m.stmt.value.left.id not in foreign:
+                n_prepend += 1
                 continue
-            rule.fail('%s|own-order|%s' % (f.qualname, norm(m.stmt)[:50]), f.module.rel, m.node.lineno, f.qualname, norm(m.stmt)[:70],
+            n_other += 1
+            rule.fail('%s|own-order|%d' % (f.qualname, n_other), f.module.rel, m.node.lineno, f.qualname, norm(m.stmt)[:70],
                       'node.value is rearranged by something else than deleting merge keys and prepending the merged pairs: merged '
                       'pairs that do not precede all own pairs override keys the mapping defines itself')
-    if n_ok >= 2:
+    if n_del >= 1 and n_prepend >= 1:
         rule.ok(f.loc(), 'node.value: merge keys deleted, merged pairs prepended')
     elif not rule.failed:
         raise AnalysisError('flatten_mapping: expected deletion + prepend of node.value not found')
@@ -703,37 +1089,77 @@ def r_merge_shape(ctx, repo):
 
 # ------------------------------------------------------------------------------------------------ C17
 
+def _assigned_from(fnode, pred):
+    """names of the locals that are bound (only) to expressions satisfying pred."""
+    return {nm for nm, ds in local_defs(fnode).items() if ds and all(d is not None and pred(d) for d in ds)}
+
+
 def r_field_vocab(ctx, repo):
     rule = ctx.rule('R-FIELD-VOCAB', 'the mapping keys represent_object writes are keys construct_python_object_apply reads; list items '
                                      'are applied with extend and dict items by item assignment (pickle\'s protocol); arguments are '
                                      'constructed deep')
     w = repo.func('representer.Representer.represent_object')
     r = repo.func('constructor.FullConstructor.construct_python_object_apply')
+    # written: constant keys stored into a dict that is handed to represent_mapping
+    handed = set()
+    for c in A.func_calls(w.node):
+        if _self_call('represent_mapping')(c):
+            a = call_arg(c, 1, 'mapping')
+            if isinstance(a, ast.Name):
+                handed.add(a.id)
     written = set()
     for n in walk_function(w.node):
-        if isinstance(n, ast.Assign) and isinstance(n.targets[0], ast.Subscript) and norm(n.targets[0].value) == 'value':
-            s = A.const_str(n.targets[0].slice)
-            if s:
-                written.add(s)
+        if isinstance(n, ast.Assign):
+            for t in n.targets:
+                if isinstance(t, ast.Subscript) and isinstance(t.value, ast.Name) and t.value.id in handed:
+                    s = A.const_str(t.slice)
+                    if s:
+                        written.add(s)
+                if isinstance(t, ast.Name) and t.id in handed and isinstance(n.value, ast.Dict):
+                    for k in n.value.keys:
+                        s = A.const_str(k) if k is not None else None
+                        if s:
+                            written.add(s)
+    if not written:
+        raise AnalysisError('represent_object: no constant key written into a mapping handed to represent_mapping')
+    # read: constant keys looked up in the local that receives self.construct_mapping(node)
+    if len(r.params) < 3:
+        raise AnalysisError('construct_python_object_apply: expected (self, suffix, node, ...)')
+    fields = _assigned_from(r.node, lambda d: _self_call('construct_mapping')(d))
     read = set()
-    for c in A.func_calls(r.node):
-        if isinstance(c.func, ast.Attribute) and c.func.attr == 'get' and norm(c.func.value) == 'value' and c.args:
-            s = A.const_str(c.args[0])
-            if s:
-                read.add(s)
-    if written and written <= read:
+    field_of = {}                 # local -> key it receives
+    for n in walk_function(r.node):
+        key = None
+        if isinstance(n, ast.Call) and isinstance(n.func, ast.Attribute) and n.func.attr in ('get', 'pop') \
+                and isinstance(n.func.value, ast.Name) and n.func.value.id in fields and n.args:
+            key = A.const_str(n.args[0])
+        elif isinstance(n, ast.Subscript) and isinstance(n.ctx, ast.Load) and isinstance(n.value, ast.Name) and n.value.id in fields:
+            key = A.const_str(n.slice)
+        if key:
+            read.add(key)
+            st = getattr(n, '_parent', None)
+            if isinstance(st, ast.Assign) and st.value is n and len(st.targets) == 1 and isinstance(st.targets[0], ast.Name):
+                field_of[st.targets[0].id] = key
+    if written <= read:
         rule.ok(w.loc(), 'written %s subset of read %s' % (sorted(written), sorted(read)))
     else:
         rule.fail('field-vocab|%s' % sorted(written - read), w.module.rel, w.node.lineno, w.qualname, 'value[...]',
                   'represent_object writes the keys %s that construct_python_object_apply does not read: that part of the '
                   'object state is lost on load' % sorted(written - read))
     # application protocol
-    txt = norm(r.node)
-    ext = [c for c in A.func_calls(r.node) if norm(c.func) == 'instance.extend' and c.args and norm(c.args[0]) == 'listitems']
+    insts = _assigned_from(r.node, lambda d: _self_call('make_python_instance')(d))
+    if not insts:
+        raise AnalysisError('construct_python_object_apply: the instance (result of make_python_instance) was not found')
+    lists = {nm for nm, k in field_of.items() if k == 'listitems'}
+    dicts = {nm for nm, k in field_of.items() if k == 'dictitems'}
+    ext = [c for c in A.func_calls(r.node) if isinstance(c.func, ast.Attribute) and c.func.attr == 'extend'
+           and isinstance(c.func.value, ast.Name) and c.func.value.id in insts and len(c.args) == 1
+           and isinstance(c.args[0], ast.Name) and c.args[0].id in lists]
     setitem = [n for n in walk_function(r.node) if isinstance(n, ast.Assign) and isinstance(n.targets[0], ast.Subscript)
-               and norm(n.targets[0].value) == 'instance']
-    other = [c for c in A.func_calls(r.node) if isinstance(c.func, ast.Attribute) and norm(c.func.value) == 'instance'
-             and c.func.attr not in ('extend',)]
+               and isinstance(n.targets[0].value, ast.Name) and n.targets[0].value.id in insts
+               and any(isinstance(x, ast.Name) and x.id in dicts for p in _enclosing_loops(n, r.node) for x in ast.walk(p.iter))]
+    other = [c for c in A.func_calls(r.node) if isinstance(c.func, ast.Attribute) and isinstance(c.func.value, ast.Name)
+             and c.func.value.id in insts and c.func.attr not in ('extend',)]
     if ext and setitem and not other:
         rule.ok(r.loc(), 'listitems via extend, dictitems via instance[key] = value')
     else:
@@ -742,19 +1168,40 @@ def r_field_vocab(ctx, repo):
                   'classes that override __setitem__ or lack the substituted method are rebuilt differently'
                   % (' - uses %s' % norm(other[0]) if other else ''))
     deep = [c for c in A.func_calls(r.node) if isinstance(c.func, ast.Attribute) and c.func.attr in ('construct_sequence', 'construct_mapping')]
-    if deep and all(any(k.arg == 'deep' and isinstance(k.value, ast.Constant) and k.value.value is True for k in c.keywords) for c in deep):
+    if deep and all(any(k.arg == 'deep' and isinstance(k.value, ast.Constant) and k.value.value is True for k in c.keywords)
+                    or (len(c.args) >= 2 and isinstance(c.args[1], ast.Constant) and c.args[1].value is True) for c in deep):
         rule.ok(r.loc(), 'constructor arguments are constructed with deep=True')
     else:
         rule.fail('%s|deep' % r.qualname, r.module.rel, r.node.lineno, r.qualname, 'deep=True',
                   'construct_python_object_apply does not construct its arguments eagerly: the callable receives containers that '
                   'are still empty')
+    # construct_python_object: the state mapping is constructed deep exactly when the instance has __setstate__
     o = repo.func('constructor.FullConstructor.construct_python_object')
-    if "deep = hasattr(instance, '__setstate__')" in norm(o.node) and 'deep=deep' in norm(o.node):
+    oinsts = _assigned_from(o.node, lambda d: _self_call('make_python_instance')(d))
+
+    def has_setstate(e):
+        b = pmatch("hasattr(_N_i, '__setstate__')", e)
+        return b is not None and b['_N_i'].id in oinsts
+    states = [c for c in A.func_calls(o.node) if _self_call('construct_mapping')(c)]
+    ok = bool(states) and bool(oinsts)
+    for c in states:
+        d = call_arg(c, 1, 'deep')
+        if d is None or not is_every_source(o.node, d, has_setstate):
+            ok = False
+    if ok:
         rule.ok(o.loc(), 'state is constructed deep exactly when __setstate__ will consume it')
     else:
         rule.fail('%s|deep' % o.qualname, o.module.rel, o.node.lineno, o.qualname, "deep = hasattr(instance, '__setstate__')",
                   'construct_python_object no longer constructs the state eagerly when it is handed to __setstate__')
     return rule
+
+
+def _enclosing_loops(n, stop):
+    p = getattr(n, '_parent', None)
+    while p is not None and p is not stop:
+        if isinstance(p, (ast.For, ast.AsyncFor)):
+            yield p
+        p = getattr(p, '_parent', None)
 
 
 def r_state_applied(ctx, repo):
@@ -833,8 +1280,16 @@ def r_state_applied(ctx, repo):
             return True
         return False
 
+    # a stable, name-free label for each tracked value: the parameter, then the locals in order of first binding
+    first_def = {}
+    for n in cfg.nodes:
+        for v in tracked:
+            if v != state and v not in first_def and n.ast is not None and is_def(n, v):
+                first_def[v] = (n.lineno, n.id)
+    order = [state] + sorted((v for v in tracked if v != state), key=lambda v: first_def.get(v, (10 ** 9, 0)))
+    label = {v: ('state' if i == 0 else 'part-%d' % i) for i, v in enumerate(order)}
     n_obl = 0
-    for v in sorted(tracked):
+    for v in order:
         consumers = [n for n in cfg.nodes if applies(n, v) and not (is_def(n, v) and not (n.kind == 'stmt' and isinstance(n.ast, ast.Assign) and v in names_loaded(n.ast.value)))]
         empty_edges = [(n, False) for n in cfg.nodes if n.kind == 'test' and isinstance(n.ast, ast.Name) and n.ast.id == v]
         empty_edges += [(n, True) for n in cfg.nodes if n.kind == 'test' and isinstance(n.ast, ast.UnaryOp)
@@ -848,13 +1303,13 @@ def r_state_applied(ctx, repo):
             dropped = [x for x in cfg.normal_exits() if x in r]
             # a consumer that is itself the start (e.g. `state, slot = state`) was already passed
             if dropped:
-                rule.fail('%s|%s dropped' % (f.qualname, v), f.module.rel, d.lineno or f.node.lineno, f.qualname, v,
+                rule.fail('%s|%s dropped' % (f.qualname, label[v]), f.module.rel, d.lineno or f.node.lineno, f.qualname, v,
                           'on some path from line %d to the end of the function the value of `%s` (part of the object state) is '
                           'neither applied to the instance nor known to be empty: pickle restores both the __dict__ half and the '
                           'slots half of a (dict_state, slot_state) pair, here one half is silently dropped for some classes '
                           '(e.g. a class with __slots__ in a base and an instance __dict__)' % (d.lineno or f.node.lineno, v))
             else:
                 rule.ok(f.loc(d.ast if d.ast is not None else f.node), '`%s` is applied on every path' % v)
-    if n_obl < 3:
-        raise AnalysisError('R-STATE-APPLIED: fewer than 3 state definitions found in set_python_instance_state')
+    if n_obl < 2:
+        raise AnalysisError('R-STATE-APPLIED: fewer than 2 state definitions found in set_python_instance_state')
     return rule
